@@ -100,6 +100,18 @@ def store (emptyData emptyCode : Hash) (c : Cache) (h : Hash) (n : CNode)
   | none => some c1
   | some (root, code) => leafRefs emptyData emptyCode c1 h root code
 
+/-- What the driver verifies after every `store` of a node that was not cached
+    (it answers `ok!pre` otherwise, which differs from the implementation's `ok`):
+    the hash does not name a different blob on disk, and everything the node needs
+    is on disk or is a cached child of the node as it now sits in the cache. -/
+def storeCheck (disk : Disk) (c' : Cache) (h : Hash) (n : CNode) : Bool :=
+  (match disk.lookup h with
+   | none => true
+   | some dn => decide (dn = n.toD)) &&
+  (match c'.lookup h with
+   | none => false
+   | some n' => n.need.all fun r => (disk.lookup r).isSome || ((c'.lookup r).isSome && n'.childs.contains r))
+
 /-! ## commit: the post-order walk -/
 
 /-- all-or-nothing sequencing of optional results. -/
